@@ -1,5 +1,6 @@
 import Dashu.Driver.Loop
 import Dashu.Model.Int.Repr
+import Dashu.Driver.FormsMore
 /-
   Driver of group `forms` (C15, C16): the REQUIRED result of an operation identified by
   (family, kind of lhs, kind of rhs) on integer values — every call form of that operation in the
@@ -39,8 +40,22 @@ def expected (fam lk rk : String) (a b : Int) : Option String :=
   | "bitand" => some (okI (bitop (· &&& ·) a b))
   | "bitor" => some (okI (bitop (· ||| ·) a b))
   | "bitxor" => some (okI (bitop (· ^^^ ·) a b))
-  | "shl" => if b < 0 then none else some (okI (a * (2 ^ b.toNat : Int)))
-  | "shr" => if b < 0 then none else some (okI (a >>> b.toNat))
+  | "shl" =>
+    if b < 0 then none
+    else if a = 0 then some (okI 0)                       -- `RefSmall(0) => Repr::zero()` for every amount
+    else if b ≥ 2 ^ 48 then
+      -- a result of more than 2^42 words is never built: `Buffer::allocate(n)` refuses `n > MAX_CAPACITY = usize::MAX / 64`
+      -- (AllocTooMuch), below that the allocation itself fails (OutOfMemory).  `n` as in integer/src/shift_ops.rs:
+      -- shl_one_spilled `idx + 1`, shl_dword_spilled `shift_words + 3`, shl_large_ref `shift_words + len + 1`
+      let sw := b.toNat / 64
+      let mag := a.natAbs
+      let need := if mag = 1 then sw + 1 else if mag < 2 ^ 128 then sw + 3 else sw + (Nat.log2 mag / 64 + 1) + 1
+      some (panic (if need > (2 ^ 64 - 1) / 64 then "AllocTooMuch" else "OutOfMemory"))
+    else some (okI (a * (2 ^ b.toNat : Int)))
+  | "shr" =>
+    if b < 0 then none
+    else if b.toNat > Nat.log2 a.natAbs + 1 then some (okI (if a < 0 then -1 else 0))   -- all bits shifted out (floor)
+    else some (okI (a >>> b.toNat))
   | "gcd" | "gcdext" =>
     some (if a = 0 ∧ b = 0 then panic "GcdZeroZero" else okI (Nat.gcd a.natAbs b.natAbs))
   | _ => none
@@ -62,14 +77,13 @@ def dispatch : Dispatch := fun _W op args =>
   | "clone.i", [a, _b] => do
     let x ← parseInt a
     pure (ok (intToHex x ++ " " ++ intToHex x ++ " " ++ intToHex (x + 1) ++ " " ++ intToHex (-3 * x)))
-  -- dashu-ratio / dashu-float tables: the requirement of C15 is that all forms agree (same value or
-  -- same panic kind); the value itself is decided in the ratio / float groups (C04, C03)
-  | "rform", [_fam, q, na, da, nb, db] => do
-    let _ ← parseInt na; let d1 ← parseNat da; let _ ← parseInt nb; let d2 ← parseNat db
-    if d1 = 0 ∨ d2 = 0 then none
-    else if q == "R" || q == "X" then pure (ok "agree") else none
+  -- dashu-ratio / dashu-float tables (round 5): the VALUE every form has to return is computed by the mirrored models
+  -- (`Driver/FormsMore.lean`: ratio model of C04, float operator model `Model/Forms/Float.lean` over the float model of C03)
+  | "rform", [fam, q, na, da, nb, db] => do
+    let n1 ← parseInt na; let d1 ← parseNat da; let n2 ← parseInt nb; let d2 ← parseNat db
+    FormsMore.rform fam q n1 d1 n2 d2
   -- `Sum` / `Product` (iter.rs of the three crates: `iter.fold(INIT, OP)`, Gen/FormsGlue `*_Sum_fn`, `*_impl_fold_iter_fn`):
-  -- the left fold of the operator over the items; integers by value, floats by agreement of the forms
+  -- the left fold of the operator over the items
   -- (rational/src/iter.rs is not compiled into dashu-ratio at this commit: no `mod iter;`)
   | "fold", ty :: kind :: items =>
     if kind != "sum" && kind != "product" then none
@@ -77,11 +91,10 @@ def dispatch : Dispatch := fun _W op args =>
       let xs ← items.mapM parseInt
       if ty == "u" && xs.any (· < 0) then none
       else pure (okI (if kind == "sum" then foldForm (· + ·) 0 xs else foldForm (· * ·) 1 xs))
-    else if ty == "z2" || ty == "h10" then some (ok "agree")
-    else none
-  | "fform", inst :: _fam :: shape :: _ =>
-    if (inst == "z2" || inst == "h10") && (shape == "FF" || shape == "FN" || shape == "NF" || shape == "FS")
-    then some (ok "agree") else none
+    else FormsMore.ffold ty kind items
+  | "fform", [inst, fam, shape, a, b] => FormsMore.fform inst fam shape a b none
+  | "fform", [inst, fam, shape, a, b, sh] =>
+    FormsMore.fform inst fam shape a b (some sh)
   | _, _ => none
 
 end Dashu.Driver.Forms
